@@ -985,12 +985,15 @@ def singles(ns, full):
                             yield (n, struct, fams_for(n, fam, pos, fi + v), [(nm, pos)], v)
 
 
-def pairs(ns):
-    """every pair of injectors x every pair of positions, chain / star / mixed hierarchies, rotating carriers"""
+def pairs(ns, all_structs_upto=0):
+    """every pair of injectors x every pair of positions; hierarchies: all of them for n <= all_structs_upto, else
+    chain / star / mixed; the carrier family at the first malformed position rotates through all families"""
     k = 0
     for n in ns:
         structs = [tuple([None] + list(range(n - 1))), tuple([None] + [0] * (n - 1)),
                    tuple([None] + [None if i % 2 else i - 1 for i in range(1, n)])]
+        if n <= all_structs_upto:
+            structs = structures(n)
         for struct in dict.fromkeys(structs):
             for p in range(n):
                 for r in range(n):
@@ -1066,15 +1069,12 @@ def run(ctx):
         gens += allp[:2500]
         gens += list(valid_cases([1, 2, 3, 4], 2))
     else:
-        # exhaustive: every class x every position x every hierarchy x every family (x 3 variants for the
-        # description classes), every pair of classes x every pair of positions on three hierarchies per dimension
-        for g in singles([1, 2, 3, 4], full=False):
-            gens.append(g)
-        for g in singles([1, 2, 3, 4], full=True):
-            if g[3][0][0] not in NEEDS_FIT:
-                gens.append(g)
-        gens += list(pairs([2, 3, 4]))
-        gens += list(valid_cases([1, 2, 3, 4], 8))
+        # exhaustive: every class x every position x every hierarchy x every family x 3 variants of the injected
+        # value; every ordered pair of classes x every pair of positions (all hierarchies of 2 and 3 dimensions,
+        # chain / star / mixed for 4)
+        gens += list(singles([1, 2, 3, 4], full=True))
+        gens += list(pairs([2, 3, 4], all_structs_upto=3))
+        gens += list(valid_cases([1, 2, 3, 4], 12))
     cases = []
     n_inapplicable = 0
     seen = set()
